@@ -515,8 +515,14 @@ def gen_list_regions(seed, big):
             for _ in range(rnd.randint(0, 2)):
                 lines.append(rnd.choice(['a();', '  b = 1; // é', '\tc', 'これ']))
             ind = rnd.choice(['', '  ', '\t'])
-            kind = rnd.choice(['block', 'inline', 'pending'])
-            if kind == 'inline':
+            kind = rnd.choice(['block', 'inline', 'pending', 'unwrap'])
+            if kind == 'unwrap':
+                first = len(lines) + 1
+                body = [ind + '  ' + rnd.choice(['keep1();', 'é();']) for _ in range(rnd.randint(1, 3))]
+                lines += [ind + f"<{RM} name='f1' unwrap-block>", ind + 'if x {'] + body + [ind + '}', ind + f"</{RM}>"]
+                regions.append((first, first + 1, f"<{RM} name='f1' unwrap-block>\n" + ind + 'if x {'))
+                regions.append((len(lines) - 1, len(lines), ind + '}\n' + ind + f"</{RM}>"))
+            elif kind == 'inline':
                 pre, post = rnd.choice(['x = ', 'é ', '']), rnd.choice([';', ' // t', ''])
                 body = rnd.choice(['1', 'old()', 'ü'])
                 el = f"<{RM} name='f1'>{body}</{RM}>"
